@@ -31,7 +31,7 @@ func genKnobs(r *rng, allowHooks bool) Knobs {
 		// half of the runs: pure defaults (+ maybe mode)
 		k.Longest = r.p(1, 5)
 		if allowHooks && r.p(1, 2) {
-			k.DFACap = pick(r, []int{200, 400, 700, 1200, 2500, 6000, 20000})
+			k.DFACap = pick(r, []int{200, 400, 700, 1200, 2500, 6000, 20000, 65536, 262144})
 			k.MaxClears = 1 + pick(r, []int{0, 1, 2, 5, 5})
 		}
 		return k
@@ -45,7 +45,7 @@ func genKnobs(r *rng, allowHooks bool) Knobs {
 	k.Longest = r.p(1, 4)
 	if allowHooks {
 		if r.p(1, 2) {
-			k.DFACap = pick(r, []int{200, 400, 700, 1200, 2500, 6000, 20000})
+			k.DFACap = pick(r, []int{200, 400, 700, 1200, 2500, 6000, 20000, 65536, 262144})
 		}
 		if r.p(1, 2) {
 			k.MaxClears = 1 + pick(r, []int{0, 1, 2, 5})
